@@ -102,21 +102,20 @@ def ob_default_scorer(present: bool) -> bool:
     """
     post: _
     """
-    from ctparse.scorer import Scorer
-    o = (LD.os.path.exists, LD.bz2.open, LD.pickle.load)
-    LD_exists = lambda p: present
-    import types
-    fake_os = types.SimpleNamespace(path=types.SimpleNamespace(exists=LD_exists, join=LD.os.path.join, dirname=LD.os.path.dirname))
-    fake_bz2 = types.SimpleNamespace(open=lambda *a, **k: _FakeFile())
-    fake_pickle = types.SimpleNamespace(load=lambda fd: object())
-    null_logger = types.SimpleNamespace(info=lambda *a, **k: None, warning=lambda *a, **k: None)
-    old = (LD.os, LD.bz2, LD.pickle, LD.logger)
-    LD.os, LD.bz2, LD.pickle, LD.logger = fake_os, fake_bz2, fake_pickle, null_logger
-    try:
-        sc = LD.load_default_scorer()
-    finally:
-        LD.os, LD.bz2, LD.pickle, LD.logger = old
-    return isinstance(sc, Scorer)
+    from ctparse.scorer import Scorer, DummyScorer
+    with NoTracing():
+        if _pick(present, 2):
+            return isinstance(CT._DEFAULT_SCORER, Scorer)
+        # configuration fault "shipped model file absent": the real loader runs against a path that does not exist
+        old = LD.DEFAULT_MODEL_FILE
+        LD.DEFAULT_MODEL_FILE = "/nonexistent-dir/model.pbz"
+        try:
+            sc = LD.load_default_scorer()
+        except Exception:
+            return False
+        finally:
+            LD.DEFAULT_MODEL_FILE = old
+        return isinstance(sc, DummyScorer)
 
 
 import os
